@@ -268,15 +268,24 @@ CLAIMED = {
              "Layer A = per bucket and right context the best offered score survives; negative control = subtraction using "
              "the wrong machine word): every edge of its graph and seeded random frames are executed on the real table "
              "through fsg_history_entry_add / fsg_history_end_frame under several mappings of contexts to bit positions, and "
-             "HistoryTrace evaluates Layer A on the real lists after every call.",
+             "HistoryTrace evaluates Layer A on the real lists after every call. The per-frame update of one phone model "
+             "(hmm.c) has its own model too (HmmSem/HmmStep): Layer A is path semantics (paths with entry identities moving "
+             "along the transitions that exist; a state shows the best score, the identity of a best path and its senone "
+             "sequence), Layer B the 3-state, multiplexed and general-topology routines transcribed; TLC checks it for every "
+             "left-to-right 3-state topology and every order of enter/evaluate/clear/normalise, the routine as it was is the "
+             "negative control; every edge of the exported graphs and seeded random histories at real magnitudes (2-5 states, "
+             "plain and multiplexed) run on the real object and HmmTrace evaluates Layer A on every call.",
         note="The (phone, left, right, position) -> senone-sequence lookup is taken from the model definition "
              "(bin_mdef_phone_id_nearest), not from the dict2pid tables or the lextree; how "
              "the models are wired into the search is what is checked. Decoder conventions are stated in the module (one-phone "
              "words take silence as right context; the last word may use any right context possible at its exit state). With "
              "pruning, a result that does not reach the last frame is not compared. Trusted: TLC, recorder. One genuine defect "
-             "found and repaired (fix: 45754d6 lextree roots); reverting it is detected.",
+             "found and repaired (fix: 45754d6 lextree roots); reverting it is detected. A second one in the 3-state HMM update "
+             "(fix: 605c312, stale skip candidate) found by TLC on HmmStep and reproduced on the real object.",
         technique="explicit TLA+ specification of the Viterbi optimum evaluated by TLC on recorded networks and frame scores "
-                  "(trace validation against an exact oracle); TLC model checking of the recursion on a synthetic network",
+                  "(trace validation against an exact oracle); TLC model checking of the recursion on a synthetic network, of the "
+                  "transcribed history-table discipline and of the transcribed per-model Viterbi update, each bound to the real "
+                  "code by graph-edge tours and TLC trace validation",
         design="4/C02"),
     "C16": dict(
         text="TLC proves exhaustively that the transcription of decoder_add_word / dict_add_word / dict2pid_add_word "
